@@ -7,6 +7,9 @@ CHECKS = {
  "C08": ("runtime monitor: reference-record oracle over generated genuine IdP responses",
          "exploration: the real library validates thousands of conforming, harness-signed responses per run (every layout/algorithm/value class drawn from a seeded PRNG) and a deterministic oracle compares every returned field with the semantic record that was signed; held = no mismatch on the executions produced",
          "trusts goxmldsig's canonicaliser objects for the simulator's canonical bytes, Go's crypto, and the fixed test keys; genuine documents stay under goxmldsig's 1000-element budget", "4/C08"),
+ "C09": ("runtime monitor: panic/recover + process-survival + result-xor-error oracle over hostile inputs; second pass under the Go race detector (checkptr)",
+         "exploration: every inbound entry point and the decryption routines are driven with a ciphertext matrix reachable without IdP keys, systematic truncations, mutations of genuine and captured messages and hostile tree shapes under 8 SP configurations; each call runs under recover in a worker process whose death is attributed to the logged case",
+         "a watchdog firing is inconclusive; inputs not generated are not covered", "4/C09"),
 }
 
 NOT_BUILT = "monitor not built yet in this session (planned in DESIGN.md section 4)"
